@@ -343,7 +343,7 @@ def clauses():
                gen=lambda tier: st.fixed_dictionaries({"parent": parents(),
                                                        "path": st.lists(S.normal_indexes(), max_size=6)}),
                nontrivial=nt_path, classes=lambda c: ["len=%d" % min(len(c["path"]), 4)],
-               n={"quick": 800, "thorough": 60000}, shards={"quick": 16, "thorough": 16}),
+               n={"quick": 800, "thorough": 30000}, shards={"quick": 16, "thorough": 16}),
         Clause("refusal", check_refusal,
                "a hardened index (2^31, 2^31+1, 2^32-1, uniform) directly or inside an index list after a normal "
                "prefix: ckd / derive_path / generate_children on public-only nodes must raise and record no child; "
